@@ -681,13 +681,6 @@ size_t _GD_DoFieldOut(DIRFILE *restrict D, gd_entry_t *restrict E,
     return 0;
   }
 
-  /* this call will throw GD_E_DOMAIN if a problem arises; however, that only
-   * happens in cases where the field has multiple inputs, which putdata will
-   * reject anyways; so we ignore this error for a more relevant one later
-   */
-  if (first_samp == GD_HERE)
-    first_samp = _GD_GetIOPos(D, E, -1);
-
   switch (E->field_type) {
     case GD_RAW_ENTRY:
       n_wrote = _GD_DoRawOut(D, E, first_samp, num_samp, data_type, data_in);
@@ -819,6 +812,16 @@ size_t gd_putdata64(DIRFILE* D, const char *field_code, off64_t first_frame,
     return 0;
   }
  
+  /* resolve the current I/O position here: inside _GD_DoFieldOut a first sample
+   * of -1 is an ordinary sample number (PHASE with shift -1 written at sample 0),
+   * not GD_HERE.  _GD_GetIOPos throws GD_E_DOMAIN only for fields with several
+   * inputs, which _GD_DoFieldOut rejects with a more relevant error */
+  if (first_samp == GD_HERE) {
+    first_samp = _GD_GetIOPos(D, entry, -1);
+    if (D->error == GD_E_DOMAIN)
+      _GD_ClearError(D);
+  }
+
   n_wrote = _GD_DoFieldOut(D, entry, first_samp, num_samp, data_type, data_in);
 
   /* The data just written may be an input of any MPLEX field: forget the start
